@@ -112,13 +112,13 @@ func c14Routing(c *Ctx) {
 			}
 			switch suf {
 			case "":
-				want = []string{`""`, ps[0].Name(), "nil"}
+				want = []string{`""`, PN(ps[0]), "nil"}
 			case "f":
-				want = []string{ps[0].Name(), ps[1].Name(), "nil"}
+				want = []string{PN(ps[0]), PN(ps[1]), "nil"}
 			case "w":
-				want = []string{ps[0].Name(), "nil", ps[1].Name()}
+				want = []string{PN(ps[0]), "nil", PN(ps[1])}
 			case "ln":
-				want = []string{ps[0].Name(), "nil"}
+				want = []string{PN(ps[0]), "nil"}
 			}
 			c.Check(strings.Join(got, "|") == strings.Join(want, "|") && Desc(Args(call)[0]) == "s", "R14.3", fn.String(), "slots", call.Pos(), "%s passes (template, fmtArgs, context) = %v (want %v)", n+suf, got, want)
 		}
